@@ -41,3 +41,96 @@ Proof.
     - assert (x == 0) by lra. rewrite H. lra. }
   lra.
 Qed.
+
+(* ---- the designspace document *)
+From Coq Require Import String.
+
+Lemma lookup_s_in {A} k (l : list (string * A)) v : lookup_s k l = Some v -> In (k, v) l.
+Proof.
+  induction l as [|[k' v'] r IH]; cbn [lookup_s]; [discriminate|].
+  destruct (String.eqb k k') eqn:E; [apply String.eqb_eq in E; subst; intros [= ->]; now left|].
+  intros H. right. now apply IH.
+Qed.
+
+Lemma lookup_s_nodup {A} k (l : list (string * A)) v :
+  NoDup (map fst l) -> In (k, v) l -> lookup_s k l = Some v.
+Proof.
+  induction l as [|[k' v'] r IH]; cbn [lookup_s map fst]; intros Hn Hin; [destruct Hin|].
+  inversion Hn as [|? ? Hk Hr]; subst.
+  destruct Hin as [[= -> ->]|Hin]; [now rewrite String.eqb_refl|].
+  destruct (String.eqb k k') eqn:E; [|now apply IH].
+  apply String.eqb_eq in E. subst. exfalso. apply Hk. now apply (in_map fst) in Hin.
+Qed.
+
+Lemma snd_unique {A B} (l : list (A * B)) a b n :
+  NoDup (map snd l) -> In (a, n) l -> In (b, n) l -> a = b.
+Proof.
+  induction l as [|[x y] r IH]; cbn [map snd]; intros Hn Ha Hb; [destruct Ha|].
+  inversion Hn as [|? ? Hy Hr]; subst.
+  destruct Ha as [Ha|Ha]; destruct Hb as [Hb|Hb].
+  - congruence.
+  - injection Ha as -> ->. exfalso. apply Hy. now apply (in_map snd) in Hb.
+  - injection Hb as -> ->. exfalso. apply Hy. now apply (in_map snd) in Ha.
+  - now apply IH.
+Qed.
+
+Lemma location_entries names : forall pos loc,
+  location names pos = Some loc ->
+  forall n v, In (n, v) loc <-> exists tag, In (tag, v) pos /\ lookup_s tag names = Some n.
+Proof.
+  induction pos as [|[tag v0] r IH]; cbn [location]; intros loc H n v.
+  - injection H as <-. split; [intros []|intros [? [[] _]]].
+  - destruct (lookup_s tag names) as [n0|] eqn:E; [|discriminate].
+    destruct (location names r) as [rest|] eqn:Er; [|discriminate]. injection H as <-.
+    split.
+    + intros [[= <- <-]|Hin]; [exists tag; split; [now left|exact E]|].
+      apply (IH rest eq_refl) in Hin. destruct Hin as [t [Ht Hl]]. exists t. split; [now right|exact Hl].
+    + intros [t [[[= -> ->]|Ht] Hl]].
+      * left. congruence.
+      * right. apply (IH rest eq_refl). now exists t.
+Qed.
+
+(* T3: every master sits, on every axis, at the position its configuration gives for that axis's
+   tag - whatever order the axes were declared in - provided tags and names are unambiguous *)
+Theorem location_by_tag (names : list (string * string)) (pos : position) loc :
+  NoDup (map snd names) -> NoDup (map fst pos) ->
+  location names pos = Some loc ->
+  forall tag v n, In (tag, v) pos -> lookup_s tag names = Some n -> loc_value n loc = Some v.
+Proof.
+  intros Hnames Hpos Hloc tag v n Hin Hn. unfold loc_value.
+  apply lookup_s_nodup.
+  - (* keys of the written dict are distinct *)
+    rewrite map_rev. apply NoDup_rev. clear tag v n Hin Hn.
+    revert loc Hloc. induction pos as [|[t v0] r IH]; cbn [location]; intros loc Hloc.
+    + injection Hloc as <-. constructor.
+    + destruct (lookup_s t names) as [n0|] eqn:E; [|discriminate].
+      destruct (location names r) as [rest|] eqn:Er; [|discriminate]. injection Hloc as <-.
+      inversion Hpos as [|? ? Ht Hr]; subst. cbn [map fst]. constructor; [|now apply IH].
+      intros Hc. apply in_map_iff in Hc. destruct Hc as [[n1 v1] [Q Hin1]]. cbn in Q. subst n1.
+      apply (location_entries names r rest Er) in Hin1. destruct Hin1 as [t' [Ht' Hl']].
+      assert (t = t') by exact (snd_unique names t t' n0 Hnames (lookup_s_in _ _ _ E) (lookup_s_in _ _ _ Hl')).
+      subst t'. apply Ht. now apply (in_map fst) in Ht'.
+  - rewrite <- in_rev. apply (location_entries names pos loc Hloc). now exists tag.
+Qed.
+
+(* a position that names a tag no axis has stops the program (KeyError) *)
+Theorem location_unknown_tag names pos tag v :
+  In (tag, v) pos -> lookup_s tag names = None -> location names pos = None.
+Proof.
+  induction pos as [|[t v0] r IH]; cbn [location]; intros Hin Hn; [destruct Hin|].
+  destruct Hin as [[= -> ->]|Hin]; [now rewrite Hn|].
+  destruct (lookup_s t names); [|reflexivity]. now rewrite (IH Hin Hn).
+Qed.
+
+(* T4: the axis descriptor carries the configured default and a range that contains every master *)
+Theorem axis_def_spec (a : axis) masters tag name lo dflt hi :
+  axis_def a masters = Some (tag, name, lo, dflt, hi) ->
+  tag = a_tag a /\ name = a_name a /\ dflt = a_default a /\
+  forall m v, In m masters -> In (a_tag a, v) m -> lo <= v <= hi.
+Proof.
+  unfold axis_def. destruct (axis_range (positions_on (a_tag a) masters)) as [[lo' hi']|] eqn:E; [|discriminate].
+  intros [= <- <- <- <- <-]. split; [reflexivity|]. split; [reflexivity|]. split; [reflexivity|].
+  intros m v Hm Hv. eapply axis_range_contains; [exact E|].
+  unfold positions_on. apply in_flat_map. exists m. split; [assumption|].
+  apply in_map_iff. exists (a_tag a, v). split; [reflexivity|]. apply filter_In. split; [assumption|]. cbn. apply String.eqb_refl.
+Qed.
